@@ -1803,9 +1803,14 @@ impl Element {
                             version_mask,
                         });
                     } else {
-                        let (is_compatible, value_version_mask) = attribute
+                        let (mut is_compatible, mut value_version_mask) = attribute
                             .content
                             .check_version_compatibility(value_spec, target_version);
+                        // the element type used in the target version can restrict the value differently (e.g. another pattern)
+                        if is_compatible && !CharacterData::check_value(&attribute.content, value_spec, target_version) {
+                            is_compatible = false;
+                            value_version_mask &= !(target_version as u32);
+                        }
                         if !is_compatible {
                             compat_errors.push(CompatibilityError::IncompatibleAttributeValue {
                                 element: self.clone(),
@@ -1836,8 +1841,13 @@ impl Element {
             if let Some(value_spec) = elemtype_new.chardata_spec() {
                 for content_item in &element.content {
                     if let ElementContent::CharacterData(cdata) = content_item {
-                        let (is_compatible, value_version_mask) =
+                        let (mut is_compatible, mut value_version_mask) =
                             cdata.check_version_compatibility(value_spec, target_version);
+                        // the element type used in the target version can restrict the value differently (e.g. another pattern)
+                        if is_compatible && !CharacterData::check_value(cdata, value_spec, target_version) {
+                            is_compatible = false;
+                            value_version_mask &= !(target_version as u32);
+                        }
                         if !is_compatible {
                             compat_errors.push(CompatibilityError::IncompatibleElement {
                                 element: self.clone(),
